@@ -138,13 +138,13 @@ def step(case: int, op: int, p_std: bool, p_alias: bool, p_x: bool, p_y: bool, r
         LAST = ("attribute view", getattr(obj, attr), want)
         return False
     # equality and serialization see exactly the mapping's content
+    twin = _new(kind)
+    for k, v in model:
+        twin[k] = v
+    if not (obj == twin) or (obj != twin):
+        LAST = ("equality with a copy",)
+        return False
     if kind != "sscchart":
-        twin = _new(kind)
-        for k, v in model:
-            twin[k] = v
-        if not (obj == twin) or (obj != twin):
-            LAST = ("equality with a copy",)
-            return False
         stream, text, gaps, idxs = record(obj)
         if [c[0] for c in stream] != mkeys() or not gaps_blank(gaps):
             LAST = ("serialized keys", [c[0] for c in stream], mkeys())
@@ -159,6 +159,10 @@ def step(case: int, op: int, p_std: bool, p_alias: bool, p_x: bool, p_y: bool, r
         if got != sorted(mkeys()):
             LAST = ("serialized chart keys", got, mkeys())
             return False
+    # serializing is a read: afterwards the object still holds the same mapping in the same order and equals its copy
+    if list(obj.items()) != [(k, v) for k, v in model] or not (obj == twin):
+        LAST = ("serialization changed the object", list(obj.items()), model)
+        return False
     return True
 
 
